@@ -252,10 +252,26 @@ func runC20(ctx *ev.Ctx, c c20Case) {
 		return n
 	}
 	checkMarkers := func(when string) {
-		svc := w.Service()
+		dump := w.Dump()
 		for _, ch := range chains {
+			// raw key of the done marker: contract address, "doneTx", chain id (u64 LE), cross-chain id
+			prefix := append(append(append([]byte{}, utils.CrossChainManagerContractAddress[:]...), []byte("doneTx")...), le64(ch.e.chainID)...)
+			nMarkers, nDone := 0, 0
+			for _, kv := range dump {
+				if len(kv[0]) > 1 && bytes.HasPrefix(kv[0][1:], prefix) {
+					nMarkers++
+				}
+			}
+			for dk, v := range done {
+				if v && dk.chain == ch.e.chainID {
+					nDone++
+				}
+			}
+			if nMarkers != nDone {
+				ctx.Failf("%s: %s: chain %d has %d done markers in the state, %d messages were accepted", name, when, ch.e.chainID, nMarkers, nDone)
+			}
 			for i := range msgs {
-				marked := ccom.CheckDoneTx(svc, msgs[i].CrossChainID, ch.e.chainID) != nil
+				marked := w.Get(append(append([]byte{}, prefix...), msgs[i].CrossChainID...)) != nil
 				if want := done[doneKey{ch.e.chainID, string(msgs[i].CrossChainID)}]; marked != want {
 					ctx.Failf("%s: %s: done marker of (chain %d, cross-chain id #%d) is %v, the message was accepted: %v", name, when, ch.e.chainID, i, marked, want)
 				}
